@@ -1291,6 +1291,35 @@ def fold_constant_tests(modules, known, rep):
         ast.fix_missing_locations(fn)
 
 
+def expand_flag_from_test(modules, known, rep):
+    """a new `flag = <comparison>` on a local whose other assignments are all True / False is `if <comparison>: flag = True else: flag = False`
+    (the comparison is evaluated once either way; comparisons of numbers / strings yield a bool)."""
+    for rel, sc, fn in all_functions(modules):
+        kh = _known_hashes(known, rel, sc, fn)
+        if kh is None:
+            continue
+        for owner, fld, stmts in list(_blocks(fn)):
+            for i, st in enumerate(stmts):
+                if not (isinstance(st, ast.Assign) and len(st.targets) == 1 and isinstance(st.targets[0], ast.Name) and isinstance(st.value, ast.Compare)
+                        and len(st.value.ops) == 1 and isinstance(st.value.ops[0], (ast.Eq, ast.NotEq, ast.Lt, ast.LtE, ast.Gt, ast.GtE)) and _is_fresh(st, fn, kh)):
+                    continue
+                x = st.targets[0].id
+                others = [a for a in ast.walk(fn) if isinstance(a, ast.Assign) and any(isinstance(t, ast.Name) and t.id == x for t in a.targets) and a is not st]
+                n_stores = sum(1 for n in ast.walk(fn) if isinstance(n, ast.Name) and n.id == x and isinstance(n.ctx, (ast.Store, ast.Del)))
+                if not others or n_stores != len(others) + 1 or x in _params(fn):
+                    continue
+                if not all(len(a.targets) == 1 and isinstance(a.value, ast.Constant) and isinstance(a.value.value, bool) for a in others):
+                    continue
+                if any(isinstance(n, (ast.Await, ast.NamedExpr, ast.Yield)) for n in ast.walk(st.value)):
+                    continue
+                new = ast.If(st.value, [ast.Assign([ast.Name(x, ast.Store())], ast.Constant(True), lineno=st.lineno)],
+                             [ast.Assign([ast.Name(x, ast.Store())], ast.Constant(False), lineno=st.lineno)])
+                ast.copy_location(new, st)
+                ast.fix_missing_locations(new)
+                stmts[i] = new
+                rep.other.append(f"`{x} = <comparison>` in {fn.name} read as the if/else that sets the flag")
+
+
 # ---------------------------------------------------------------------------------------------- N24 augmented assignment
 def expand_augassign(modules, known, rep):
     """a new `x -= c` / `x += c` on a plain local with a numeric constant is `x = x - c` (no in-place form exists for numbers)"""
@@ -1478,11 +1507,11 @@ def thread_none_sentinels(modules, known, rep):
                                     and not any(isinstance(n, ast.Name) and n.id == t for n in ast.walk(b_.value)):
                                 del block[k2]
                                 continue
-                            # ... or by a raise that does not mention t (nothing reads the sentinel on that way out)
+                            # ... or by statements that leave the function (return / raise) without mentioning t: nothing reads the sentinel on that way out
                             if isinstance(a_, ast.Assign) and len(a_.targets) == 1 and isinstance(a_.targets[0], ast.Name) and a_.targets[0].id == t \
-                                    and isinstance(a_.value, ast.Constant) and a_.value.value is None and isinstance(b_, ast.Raise) \
-                                    and not any(isinstance(n, ast.Name) and n.id == t for n in ast.walk(b_)) \
-                                    and not _in_try_body(fn, b_):
+                                    and isinstance(a_.value, ast.Constant) and a_.value.value is None and _exits(block) \
+                                    and not any(isinstance(n, ast.Name) and n.id == t for r_ in block[k2 + 1:] for n in ast.walk(r_)) \
+                                    and not _in_try_body(fn, b_) and not any(isinstance(n, (ast.Break, ast.Continue)) for r_ in block[k2 + 1:] for n in ast.walk(r_)):
                                 del block[k2]
                                 continue
                             k2 += 1
